@@ -20,3 +20,20 @@ class c19_tag:
         if name in self.fail_ids:
             return NotCompleted("FAIL", self, f"input {name} cannot be processed", source=aln)
         return aln
+
+
+@define_app
+class c19_tag_ser:
+    """the same app typed for write_db (serialisable output)"""
+
+    def __init__(self, fail_ids=(), callsfile=""):
+        self.fail_ids = tuple(fail_ids)
+        self.callsfile = callsfile
+
+    def main(self, aln: c3t.AlignedSeqsType) -> c3t.SerialisableType:
+        name = Path(str(aln.info.source)).name.split(".")[0]
+        with open(self.callsfile, "a") as fh:
+            fh.write(name + "\n")
+        if name in self.fail_ids:
+            return NotCompleted("FAIL", self, f"input {name} cannot be processed", source=aln)
+        return aln
